@@ -303,7 +303,19 @@ def rule_xport(m):
             loops = [n for n in f.nodes if n['k'] == 'CXXForRangeStmt' and tt.t(n['rangeinit']) == seq]
             adds = _calls(f, adder)
             resz = _calls(f, 'resize')
-            if len(loops) != 1 or len(adds) != 1 or len(resz) != 1:
+            # the container handed to the edge-list constructor of a base class: the edges go through the base insertion
+            delegated = None
+            for it in f.d.get('inits', []):
+                if it.get('base') or it.get('delegating'):
+                    t = tt.t(it['init'])
+                    if any(st == seq for st in subterms(t)):
+                        delegated = it
+            if delegated is not None and delegated.get('base') and cls.split('::')[-1] not in delegated['base']:
+                why = 'the container is handed to the edge-list constructor of the base class (%s): the edges are inserted through ' \
+                      'the base-class insertion instead of %s::%s, so repeated pairs / special values are not handled as when ' \
+                      'adding the edges one at a time (and derived totals are not maintained by the insertion)' % (
+                          delegated['base'].replace('BaseGraph::', ''), short(cls), adder)
+            elif len(loops) != 1 or len(adds) != 1 or len(resz) != 1:
                 why = 'expected one loop over the container, one resize and one insertion through %s' % adder
             else:
                 e = ('var', loops[0]['loopvar'])
@@ -372,7 +384,7 @@ def rule_xport(m):
                 fail(f, 'edge-list constructor', why)
             else:
                 ok(f, schema='graph(0); for t in seq: m = max(t0,t1); if (m >= size) resize(m+1); %s(t0, t1[, t2])' % adder)
-    res.require_sites(60, 'transport functions')
+    res.require_sites(30, 'transport functions')
     return res
 
 
@@ -778,5 +790,5 @@ def rule_idx(m):
         else:
             res.ok(dict(function=f.display(), yield_guard='skip while !end && vertex > *neighbour: each pair once, loops once'),
                    fn=f.display())
-    res.require_sites(60, 'index / cursor sites')
+    res.require_sites(30, 'index / cursor sites')
     return res
